@@ -379,23 +379,18 @@ outer:
 		for l := 1; l <= len(b); l++ {
 			s.Lock()
 			s.decoder.Reset()
-			nout, nin, _ := s.decoder.Transform(utfb, b[:l], true)
+			// The decoder is not told that the input ends with this
+			// prefix: for the start of a multi-byte character it
+			// then asks for more instead of substituting U+FFFD.
+			nout, nin, _ := s.decoder.Transform(utfb, b[:l], false)
 			s.Unlock()
 
 			if nout != 0 {
 				r, _ := utf8.DecodeRune(utfb[:nout])
-				if r == utf8.RuneError {
-					// Not a character (yet).  The decoder is told
-					// that the input ends here, so it substitutes
-					// for what may be the start of a multi-byte
-					// character: try the longer prefixes.
-					if l < utf8.UTFMax {
-						continue
-					}
-					break
+				if r != utf8.RuneError {
+					ev := NewEventKey(KeyRune, r, ModNone)
+					s.postEvent(ev)
 				}
-				ev := NewEventKey(KeyRune, r, ModNone)
-				s.postEvent(ev)
 				b = b[nin:]
 				continue outer
 			}
